@@ -17,6 +17,7 @@ package redis
 import (
 	"errors"
 	"fmt"
+	"math"
 	"strconv"
 	"strings"
 	"time"
@@ -615,6 +616,9 @@ func (server *Server) registerCoreExecutors() {
 		}
 		if err != nil {
 			return nil, newMissingArgumentError(cmd, "score", err)
+		}
+		if math.IsNaN(score) {
+			return nil, newInvalidArgumentError(cmd, "score", errors.New("not a valid float"))
 		}
 
 		members := []*ZSetMember{}
